@@ -65,7 +65,54 @@ func querySpec(id int) reference.Spec {
 
 const nQueryRefs = 9
 
-var hosts = []string{"docker.io", "registry-1.docker.io", "index.docker.io", "ghcr.io", "reg.example:5000", "localhost:5000", "evil.example", "cdn.evil.example", ""}
+var hosts = []string{"docker.io", "registry-1.docker.io", "index.docker.io", "ghcr.io", "reg.example:5000", "localhost:5000", "evil.example", "cdn.evil.example", "",
+	"registry.internal:5000", "registry.internal:5001", "registry.internal", "registry.internal:443", "registry.internal:8443", "REGISTRY.internal:5000",
+	"registry.internal.:5000", "10.0.0.1:5000", "10.0.0.1", "[::1]:5000", "[::1]", "::1", "ghcr.io:443", "GHCR.IO", "ghcr.io."}
+
+// hostVariants: hosts that differ from hp only in the port, the case, a trailing dot or the brackets
+func hostVariants(hp string) []string {
+	name, port := hp, ""
+	if i := strings.LastIndex(hp, ":"); i >= 0 && !strings.HasSuffix(hp, "]") && strings.Count(hp, ":") == 1 || (strings.HasPrefix(hp, "[") && strings.Contains(hp, "]:")) {
+		i := strings.LastIndex(hp, ":")
+		name, port = hp[:i], hp[i+1:]
+	}
+	vs := []string{hp, name, name + ":5000", name + ":5001", name + ":443", name + ":80", name + ":8443", name + ":", name + ":0" + port,
+		strings.ToUpper(name) + ":" + port, strings.ToLower(name), name + ".", name + ".:" + port}
+	if strings.HasPrefix(name, "[") {
+		vs = append(vs, strings.Trim(name, "[]"), strings.Trim(name, "[]")+":"+port)
+	} else {
+		vs = append(vs, "["+name+"]", "["+name+"]:"+port)
+	}
+	return vs
+}
+
+// decorate renders a server address around a host:port; the named host is hp whatever the decoration
+func decorate(hp string, k int) string {
+	switch k % 10 {
+	case 0:
+		return "https://" + hp
+	case 1:
+		return "http://" + hp + "/"
+	case 2:
+		return "https://" + hp + "/v2/"
+	case 3:
+		return "https://alice:s3cret@" + hp + "/v1/"
+	case 4:
+		return "https://bob@" + hp
+	case 5:
+		return "https://" + hp + "?service=registry"
+	case 6:
+		return "https://" + hp + "#top"
+	case 7:
+		return "HTTPS://" + hp + "/v2/?a=b#c"
+	case 8:
+		return "//" + hp + "/v2"
+	default:
+		return "ftp://a@b@" + hp + "/x y"
+	}
+}
+
+const nDecor = 10
 
 // ---- case description ----
 
@@ -335,25 +382,26 @@ func exec(c Case) ([]Out, []string) {
 
 // ---- generation ----
 
+var bareAddrs = []string{"ghcr.io", "index.docker.io/v1/", "ghcr.io/v2", "reg.example:5000", "docker.io", "registry.internal:5000", "registry.internal:5000/v2",
+	"localhost:5000", "/registry.internal:5000", "?registry.internal:5000", "https:registry.internal", "https:/registry.internal", "https:///v2", "https://"}
+var badAddrs = []string{"https://[::1", "http://a b/", "%zz", "1.2.3.4:5000/v1", "10.0.0.1:5000", "[::1]:5000", "1reg:5000/x", "https://[::1]x", "https://[::1]:x",
+	"https://registry.internal:50x0", "https://registry.internal:-1", "https://registry.internal/%zz", "https://registry%2Einternal", " https://registry.internal",
+	"https://registry.internal#%zz", "https://a^b@registry.internal", "https://registry.internal\tx"}
+
 func genSA(r *hx.Rng) SA {
-	switch r.Pick(30, 45, 12, 13) {
+	switch r.Pick(28, 50, 11, 11) {
 	case 0:
 		return SA{Kind: "empty"}
 	case 1:
-		h := hosts[r.Intn(len(hosts)-1)] // not the empty host
-		if r.Chance(1, 8) {
-			h = ""
+		h := hosts[r.Intn(len(hosts))]
+		if h == "" && !r.Chance(1, 6) {
+			h = "registry.internal:5000"
 		}
-		scheme := []string{"https", "http"}[r.Intn(2)]
-		path := []string{"", "/", "/v1/", "/v2"}[r.Intn(4)]
-		if h == "" && path == "" {
-			path = "/"
-		}
-		return SA{Kind: "url", Text: scheme + "://" + h + path, Host: h}
+		return SA{Kind: "url", Text: decorate(h, r.Intn(nDecor)), Host: h}
 	case 2:
-		return SA{Kind: "bare", Text: []string{"ghcr.io", "index.docker.io/v1/", "ghcr.io/v2", "reg.example:5000", "docker.io"}[r.Intn(5)]}
+		return SA{Kind: "bare", Text: bareAddrs[r.Intn(len(bareAddrs))]}
 	default:
-		return SA{Kind: "bad", Text: []string{"https://[::1", "http://a b/", "%zz", "1.2.3.4:5000/v1"}[r.Intn(4)]}
+		return SA{Kind: "bad", Text: badAddrs[r.Intn(len(badAddrs))]}
 	}
 }
 
@@ -427,6 +475,9 @@ func gen(r *hx.Rng) Case {
 						o.Host = a.SA.Host
 						if o.Host == "index.docker.io" && r.Bool() {
 							o.Host = []string{"docker.io", "registry-1.docker.io"}[r.Intn(2)]
+						} else if r.Chance(1, 2) { // a host that differs only in port / case / dot / brackets
+							vs := hostVariants(a.SA.Host)
+							o.Host = vs[r.Intn(len(vs))]
 						}
 						break
 					}
@@ -489,14 +540,9 @@ func coqAuth(a *Auth) string {
 	if a == nil {
 		return "None"
 	}
-	sa := "SAEmpty"
-	switch a.SA.Kind {
-	case "url":
-		sa = "(SAUrl " + coqStr(a.SA.Host) + ")"
-	case "bare":
-		sa = "SABare"
-	case "bad":
-		sa = "SABad"
+	sa := "SAEmpty" // the model parses the address text itself (Model/Creds.v parse_url_host)
+	if a.SA.Kind != "empty" {
+		sa = "(SAText " + coqStr(a.SA.Text) + ")"
 	}
 	b := "B64Bad"
 	if !a.B64Bad {
@@ -594,6 +640,21 @@ func main() {
 				if aliasHost(o.Host) != o.Host {
 					ctx.Count("query.docker-alias")
 				}
+				for j := i - 1; j >= 0; j-- { // the host differs from the address of the latest pull only in port/case/dot/brackets
+					if a := c.Ops[j].Auth; c.Ops[j].Op == "pull" && a != nil && a.SA.Kind == "url" {
+						if o.Host != a.SA.Host {
+							for _, v := range hostVariants(a.SA.Host) {
+								if v == o.Host {
+									ctx.Count("query.host-variant")
+									break
+								}
+							}
+						} else {
+							ctx.Count("query.host-exact")
+						}
+						break
+					}
+				}
 				switch {
 				case outs[i].C.Err:
 					ctx.Count("result.error")
@@ -654,6 +715,35 @@ func main() {
 			{Op: "multi", Host: "ghcr.io", Ref: 6, Pre: []Cred{{}}, Post: []Cred{{}, {U: "mallory", S: "x"}, {Err: true}}},
 			{Op: "multi", Host: "ghcr.io", Ref: 2, Pre: []Cred{{Err: true}}},
 			{Op: "multi", Host: "ghcr.io", Ref: 6, Post: []Cred{{Err: true}}}}},
+	}
+	// deterministic sweep over address forms: for every host:port spelling, every decoration of the address, then the
+	// host itself and every host that differs only in port / case / trailing dot / brackets
+	sweepHosts := []string{"registry.internal:5000", "registry.internal", "registry.internal:443", "REGISTRY.internal:5000", "registry.internal.:5000",
+		"10.0.0.1:5000", "10.0.0.1", "[::1]:5000", "[::1]", "::1", "registry.internal:", ":5000", "index.docker.io:443"}
+	for hi, hp := range sweepHosts {
+		c := Case{Connected: true}
+		vs := hostVariants(hp)
+		for k := 0; k < nDecor; k++ {
+			c.Ops = append(c.Ops, Op{Op: "pull", Img: 8, Auth: up(SA{Kind: "url", Text: decorate(hp, k), Host: hp})})
+			c.Ops = append(c.Ops, Op{Op: "query", Host: hp, Ref: 2})
+			for j := 0; j < 4; j++ { // a rotating window over the variants: all are covered across the decorations
+				c.Ops = append(c.Ops, Op{Op: "query", Host: vs[(4*k+j+hi)%len(vs)], Ref: 2})
+			}
+		}
+		c.Ops = append(c.Ops, Op{Op: "query", Host: "docker.io", Ref: 2}, Op{Op: "query", Host: "", Ref: 2})
+		corpus = append(corpus, c)
+	}
+	for _, list := range [][]string{bareAddrs, badAddrs} {
+		c := Case{Connected: true}
+		kind := "bare"
+		if &list[0] == &badAddrs[0] {
+			kind = "bad"
+		}
+		for _, t := range list {
+			c.Ops = append(c.Ops, Op{Op: "pull", Img: 8, Auth: up(SA{Kind: kind, Text: t})},
+				Op{Op: "query", Host: "registry.internal:5000", Ref: 2}, Op{Op: "query", Host: "registry.internal", Ref: 2}, Op{Op: "query", Host: "", Ref: 2})
+		}
+		corpus = append(corpus, c)
 	}
 	for _, c := range corpus {
 		emit(c)
